@@ -41,6 +41,10 @@ MOLECULES = {
         (['CCC%0', '%0C@1C=C@2CCl'], 'chain'),
         (['CCCC@1C=C@2C%0', '%0Cl'], 'chain'),
     ]),
+    'hydrogen_marked': ('[H]@1C(F)=C@2F', [                # the marked substituent is an explicitly written hydrogen
+        (['[H]@1C(F)=%0', '%0=C@2F'], 'chain'),
+        (['[H]@1C(%0)=C@2F', 'F%0'], 'chain'),
+    ]),
     'chiral_centre': ('C[C;x=@x](F)(Cl)N', [
         (['C%0', '%0[C;x=@x](F)(Cl)N'], 'chain'),
         (['C[C;x=@x](%0)(Cl)N', 'F%0'], 'chain'),
@@ -68,7 +72,7 @@ def chirality_signature(moldata):
     return sorted([nodes[n]['chiral'], nodes[n].get('element'), sorted(nb[n])] for n in nodes if 'chiral' in nodes[n])
 
 
-QUICK = ['difluoroethene', 'difluorobutene', 'butene', 'chiral_centre', 'branched_fluorobutene', 'chlorobutene', 'chiral_and_ez', 'chlorooctene']
+QUICK = ['difluoroethene', 'difluorobutene', 'butene', 'chiral_centre', 'branched_fluorobutene', 'chlorobutene', 'chiral_and_ez', 'chlorooctene', 'hydrogen_marked']
 
 
 def ez_classes(moldata):
